@@ -134,9 +134,15 @@ def run(out, seed, n, mode):
     rnd = random.Random(seed)
     recs = []
     custom_names = mode == "custom" and rnd.random() < 0.5
-    W = classgen.World("_ser2", "_ign2") if custom_names else classgen.World()
-    beans = W.plain_keys + ["PtL", "PtD", "Color", "Decimal"]
-    for _ in range(n):
+    mk = (lambda: classgen.World("_ser2", "_ign2")) if custom_names else classgen.World
+    # two generations of the same class definitions (same names, separate configurations and local class tables):
+    # what a name means is relative to the configuration in use
+    worlds = [mk(), mk()]
+    beans = worlds[0].plain_keys + ["PtL", "PtD", "Color", "Decimal"]
+    for it in range(n):
+        W = worlds[(it // 7) % 2]
+        import sys as _sys
+        _sys.modules[classgen.MOD] = W.mod
         config = W.config.copy()
         config.classes = W.config.classes
         if mode == "plain":
@@ -200,11 +206,15 @@ def corrupt(rnd, dumped):
 def record_failure(W, rnd, config, beans):
     orig = graph(rnd, W, rnd.randint(1, 2), beans)
     rec = {"mode": "fail", "CT": W.CT, "cfg": {"H": [], "ign": []}, "orig": W.enc(orig)}
-    good = jsonclass.dump(orig, config=config)
+    d = call(lambda: jsonclass.dump(orig, config=config))
+    good = d["v"]
     rec["orig_after"] = W.enc(orig)
-    wire = json.loads(json.dumps(good))
+    try:
+        wire = json.loads(json.dumps(good))
+    except (TypeError, ValueError):
+        wire = copy.deepcopy(good)
     corrupted = corrupt(rnd, wire)
-    rec["dumped"] = {"ok": True, "v": enc(good), "exc": ""}
+    rec["dumped"] = {"ok": d["ok"], "v": enc(good), "exc": d["exc"]}
     rec["wire_ok"] = False                      # round trip is not claimed for corrupted input
     rec["loadin"] = enc(wire)
     l = call(lambda: jsonclass.load(wire, config.classes))
